@@ -5,6 +5,7 @@ can switch threads too -- the turn is handed to another thread.  A schedule
 replays exactly.  Boundary monitor: every operation must return what it
 returns alone; at quiescence the shared objects are as they were."""
 import inspect
+import functools
 import itertools
 import os
 import random
@@ -210,6 +211,22 @@ class A(object):
 obj = A()
 shared = [A.__dict__['m'], obj]
 ''', [('inspect-attr', 'A.m'), ('sigtools-attr', 'obj.m'), ('sigtools-attr', 'A.m')]),
+    # wrappers made at run time around a function that may already have been analysed (functools.wraps copies
+    # the wrapped function's __dict__): a thread's answer must not depend on what others retrieved before
+    'S11-wraps-wrapper-made-after-analysis': ('''
+def fwd(u, *args, **kwargs): return inner(*args, **kwargs)
+def make():
+    @functools.wraps(fwd)
+    def w(a, *args, **kwargs): return fwd(*args, **kwargs)
+    return w
+shared = [fwd]
+''', [('sigtools-attr', 'make()'), ('sigtools-attr', 'make()'), ('sigtools', 'fwd')]),
+    # the callee is a functools.lru_cache object: it carries __wrapped__ and has no signature of its own
+    'S12-lru-cached-callee': ('''
+cached = functools.lru_cache(maxsize=None)(inner)
+def f(a, *args, **kwargs): return cached(*args, **kwargs)
+shared = [f, cached]
+''', [('sigtools', 'f'), ('inspect', 'cached'), ('sigtools', 'cached')]),
     'S7-three-threads-on-wraps': ('f = deco(inner)\nshared = [f]', [('sigtools', 'f'), ('inspect', 'f'), ('sigtools', 'f')]),
     'S7b-three-threads-mixed': ('''
 g = deco(inner)
@@ -295,6 +312,13 @@ def lacks_attribute(o, initial, g):
     return False
 
 
+def is_update_wrapper_product(o):
+    """The call site of the open finding M1: what functools.wraps / update_wrapper produce -- a plain function or a
+    functools.lru_cache object carrying __wrapped__ in its own __dict__."""
+    import types
+    return isinstance(o, (types.FunctionType, functools._lru_cache_wrapper)) and '__wrapped__' in getattr(o, '__dict__', {})
+
+
 def predicted_wrong_answers(g, ops_spec):
     """Answers each mechanism would produce, computed sequentially by putting the
     shared object into the mechanism's transient state by hand.  The open finding M1 is known
@@ -305,7 +329,7 @@ def predicted_wrong_answers(g, ops_spec):
     import types
     from sigtools import specifiers, _autoforwards
     pred = {M1: set(), M2: set()}
-    m1_targets = [o for o in g['shared'] if isinstance(o, types.FunctionType) and '__wrapped__' in getattr(o, '__dict__', {})]
+    m1_targets = [o for o in g['shared'] if is_update_wrapper_product(o)]
     for how, expr in ops_spec:
         op = make_op(g, how, expr)
         targets = m1_targets
@@ -321,18 +345,24 @@ def predicted_wrong_answers(g, ops_spec):
                 for a, v in saved.items():
                     o.__dict__[a] = v
         # M1 (b): a late entrant saved nothing, then reads with the attribute restored
-        enter, exit_ = _autoforwards.cleanup_functools_wrapper.__enter__, _autoforwards.cleanup_functools_wrapper.__exit__
+        # (the module global is replaced by a stand-in: works whatever form -- class, generator-based -- the
+        # context manager has)
+        orig = _autoforwards.cleanup_functools_wrapper
         for skip_for in targets:
-            def fake_enter(self, _o=skip_for, _enter=enter):
-                if self.func is _o:
-                    self.saved_attrs = {}
-                    return None
-                return _enter(self)
-            _autoforwards.cleanup_functools_wrapper.__enter__ = fake_enter
+            class LateEntrant(object):
+                def __init__(self, func, _o=skip_for, _orig=orig):
+                    self.cm = None if func is _o else _orig(func)
+
+                def __enter__(self):
+                    return self.cm.__enter__() if self.cm is not None else None
+
+                def __exit__(self, *exc):
+                    return self.cm.__exit__(*exc) if self.cm is not None else None
+            _autoforwards.cleanup_functools_wrapper = LateEntrant
             try:
                 pred[M1].add(render(outcome(op)))
             finally:
-                _autoforwards.cleanup_functools_wrapper.__enter__ = enter
+                _autoforwards.cleanup_functools_wrapper = orig
         # M2: another thread's entry sits in the shared recursion guard
         guard = getattr(specifiers.as_forged, 'currently_computing', None)
         if isinstance(guard, set):
@@ -428,8 +458,40 @@ def solo_profile_fresh(name, ops_spec):
     return answers, counts, windows
 
 
+def alone_answers(ctx, name, ops_spec):
+    """"every call returns what it returns when run alone": each operation on freshly built objects nobody has
+    looked at, nothing else running.  Also: that single call leaves the shared objects as they were."""
+    import gc
+    was = gc.isenabled()
+    out = []
+    for how, expr in ops_spec:
+        g2, _ = build(name)
+        before = [sorted(w_fault._own_attrs(o)) for o in g2['shared']]
+        out.append(render(outcome(make_op(g2, how, expr))) if how != 'exec' else None)
+        after = [sorted(w_fault._own_attrs(o)) for o in g2['shared']]
+        if how != 'exec' and before != after:
+            ctx.violation('C17', 'ConcurrencyBoundary', 'attributes-changed-by-a-single-retrieval',
+                          'one retrieval, run alone, leaves a shared object with other attributes than it had',
+                          {'scenario': name, 'operation': [how, expr], 'before': before, 'after': after},
+                          dict(workload='sched', scenario=name, plan=[]))
+    if was:
+        gc.enable()
+    return out
+
+
+def check_against_alone(ctx, name, ops_spec, answers, alone):
+    ctx.count('C17.answers_compared_with_running_alone', len([a for a in alone if a is not None]))
+    for k, (how, expr) in enumerate(ops_spec):
+        if alone[k] is not None and answers[k] != alone[k]:
+            ctx.violation('C17', 'ConcurrencyBoundary', 'answer-depends-on-earlier-retrievals',
+                          'an operation returns something else after other retrievals have run (sequentially) than when it is run alone on fresh objects',
+                          {'scenario': name, 'operation': [how, expr], 'alone': alone[k], 'after_others': answers[k]},
+                          dict(workload='sched', scenario=name, plan=[]))
+
+
 def explore(ctx, name, tier):
     g, ops_spec = build(name)
+    alone = alone_answers(ctx, name, ops_spec)
     SCHED.install()
     n = len(ops_spec)
     ops = [make_op(g, how, expr) for how, expr in ops_spec]
@@ -448,6 +510,7 @@ def explore(ctx, name, tier):
         ctx.count('C17.unstable_scenarios')
         ctx.inconclusive.append('scenario %s is not deterministic when run alone' % name)
         return
+    check_against_alone(ctx, name, ops_spec, answers, alone)
     if WINDOW_EXTENT:
         where = sorted(set(WINDOW_EXTENT))[:4]
         ctx.violation('C17', 'ConcurrencyBoundary', 'attributes-away-beyond-own-signature-read',
@@ -631,19 +694,24 @@ class WindowLog(object):
     def install(self):
         from sigtools import _autoforwards, specifiers
         log = self
-        cls = _autoforwards.cleanup_functools_wrapper
-        self.saved = (cls.__enter__, cls.__exit__, type(specifiers.as_forged).__get__)
-        enter, exit_, get = self.saved
+        orig = _autoforwards.cleanup_functools_wrapper
+        self.saved = (orig, type(specifiers.as_forged).__get__)
+        get = self.saved[1]
 
-        def __enter__(self_):
-            self_._vf_start = next(log.seq)
-            return enter(self_)
+        class Logged(object):
+            """stand-in for the context manager, whatever its form: logs the window, delegates"""
+            def __init__(self_, *a, **k):
+                self_.cm = orig(*a, **k)
 
-        def __exit__(self_, *exc):
-            try:
-                return exit_(self_, *exc)
-            finally:
-                log.windows.append((threading.get_ident(), 'M1', getattr(self_, '_vf_start', -1), next(log.seq)))
+            def __enter__(self_):
+                self_._vf_start = next(log.seq)
+                return self_.cm.__enter__()
+
+            def __exit__(self_, *exc):
+                try:
+                    return self_.cm.__exit__(*exc)
+                finally:
+                    log.windows.append((threading.get_ident(), 'M1', getattr(self_, '_vf_start', -1), next(log.seq)))
 
         def __get__(self_, instance, owner):
             shared = isinstance(vars(self_).get('currently_computing'), set)
@@ -653,13 +721,12 @@ class WindowLog(object):
             finally:
                 if shared:
                     log.windows.append((threading.get_ident(), 'M2', start, next(log.seq)))
-        cls.__enter__, cls.__exit__ = __enter__, __exit__
+        _autoforwards.cleanup_functools_wrapper = Logged
         type(specifiers.as_forged).__get__ = __get__
 
     def uninstall(self):
         from sigtools import _autoforwards, specifiers
-        cls = _autoforwards.cleanup_functools_wrapper
-        cls.__enter__, cls.__exit__, type(specifiers.as_forged).__get__ = self.saved
+        _autoforwards.cleanup_functools_wrapper, type(specifiers.as_forged).__get__ = self.saved
 
     def foreign_overlap(self, tid, start, end):
         kinds = set()
@@ -681,7 +748,7 @@ def stress(ctx, name, seconds, nthreads=8):
     initial = shared_snapshot(g)
     answers = [render(outcome(op)) for op in ops]
     import types
-    m1_site = any(isinstance(o, types.FunctionType) and '__wrapped__' in getattr(o, '__dict__', {}) for o in g['shared'])
+    m1_site = any(is_update_wrapper_product(o) for o in g['shared'])
     log = WindowLog()
     log.install()
     old = sys.getswitchinterval()
@@ -760,7 +827,7 @@ def run(ctx):
     if ctx.shard == 0:
         secs = {'quick': 1.5, 'thorough': 20}[ctx.tier]
         for name in ('S1-two-sigtools-on-wraps', 'S2-sigtools-vs-inspect-on-wraps', 'S3b-two-inspect-on-decorator-object',
-                     'S5-modifier-method-one-instance'):
+                     'S5-modifier-method-one-instance', 'S12-lru-cached-callee'):
             stress(ctx, name, secs)
 
 
@@ -770,6 +837,7 @@ def replay(ctx, rec):
         stress(ctx, name, rec.get('seconds', 2))
         return
     g, ops_spec = build(name)
+    alone = alone_answers(ctx, name, ops_spec)
     SCHED.install()
     try:
         ops = [make_op(g, how, expr) for how, expr in ops_spec]
@@ -780,6 +848,7 @@ def replay(ctx, rec):
             answers, counts, windows = solo_profile_fresh(name, ops_spec)
         else:
             answers, counts, windows = solo_profile(g, ops_spec, initial)
+        check_against_alone(ctx, name, ops_spec, answers, alone)
         pred = predicted_wrong_answers(g, ops_spec)
         plan = {tuple(k): v for k, v in rec['plan']}
         if is_fresh(name):
